@@ -5,6 +5,7 @@ import (
 	"crypto/sha256"
 	"crypto/sha512"
 	"hash"
+	"strconv"
 	"strings"
 
 	"github.com/segmentio/kafka-go/protocol/saslauthenticate"
@@ -22,6 +23,8 @@ type SASLConfig struct {
 	// InBand makes a failed SCRAM step answer with error code 0 and the server's e=... message
 	// (what a broker does that signals the failure inside the SASL payload)
 	InBand bool
+	// PlainAnswer is the token a broker sends along with the acceptance of a PLAIN exchange (nil: none, like Kafka).
+	PlainAnswer []byte
 }
 
 type saslSession struct {
@@ -123,7 +126,7 @@ func (c *Cluster) saslStep(sc *srvConn, in []byte) (out []byte, done, failed boo
 		if !ok || pw != string(parts[2]) {
 			return nil, false, true
 		}
-		return nil, true, false
+		return c.SASL.PlainAnswer, true, false
 	}
 	resp, err := s.conv.Step(string(in))
 	if err != nil {
@@ -182,7 +185,7 @@ func (sc *srvConn) saslRound() int {
 // rawAuthToken handles the opaque tokens of handshake v0 (no request header).
 func (c *Cluster) rawAuthToken(sc *srvConn, token []byte) {
 	c.mu.Lock()
-	e := &Entry{Seq: len(c.Journal), Conn: sc.id, Broker: sc.broker.ID, At: c.Now(), Key: -1, Raw: token, sc: sc, Answer: "raw-auth"}
+	e := &Entry{Seq: len(c.Journal), Conn: sc.id, Broker: sc.broker.ID, At: c.Now(), Key: -1, Raw: token, sc: sc, Answer: "raw-auth", AfterCut: sc.cut}
 	c.Journal = append(c.Journal, e)
 	out, done, failed := c.saslStep(sc, token)
 	if c.RawAuthFault != "" && c.RawAuthFault == "close" {
@@ -205,6 +208,21 @@ func (c *Cluster) rawAuthToken(sc *srvConn, token []byte) {
 	frame := append(b[:], out...)
 	if c.RawAuthMutate != nil {
 		frame = c.RawAuthMutate(sc.saslRound(), frame)
+	}
+	e.RespBytes = len(frame)
+	if c.RawAuthCut != nil {
+		if k := c.RawAuthCut(sc.id, sc.saslRound(), frame); k >= 0 {
+			sc.cut = true
+			e.Answer = "raw-auth cut:" + strconv.Itoa(k)
+			sc.srv.LimitPeerReadsAfter(k) // set before writing: the client may be reading concurrently
+			sc.srv.Write(frame)
+			if !c.HalfCloseOnCut {
+				c.dropConn(sc)
+			}
+			c.mu.Unlock()
+			c.event()
+			return
+		}
 	}
 	sc.srv.Write(frame)
 	c.mu.Unlock()
